@@ -102,3 +102,34 @@ def apply_second_act(tree, root, act):
     if act["keep_mtime"]:
         os.utime(path, ns=(st0.st_atime_ns, st0.st_mtime_ns))
     return new
+
+
+# ---------------------------------------------------------------- "warm-up": what the process did before the judged create
+def warmup():
+    """Optional history for creator properties: before the judged create, the same process creates a metafile for an
+    unrelated payload with (usually) another piece length and another creator.  Whatever a creator keeps at module or
+    class level between two uses (a cached padding root, a remembered piece length, a shared buffer) then shows."""
+    from hypothesis import strategies as st
+    return st.one_of(st.none(), st.none(), st.none(),
+                     st.fixed_dictionaries({
+                         "creator": st.sampled_from(["TorrentFile", "TorrentFileV2", "TorrentFileHybrid", "Assembler2", "Assembler3"]),
+                         "P": st.sampled_from([1 << 14, 1 << 15, 1 << 16, 1 << 17]),
+                         "sizes": st.lists(st.sampled_from([300, 16384, 40000, 70000, 100000, 3 * 65536 + 1, 5 * 32768]), min_size=1, max_size=3),
+                         "mode": st.sampled_from(["rnd", "const", "zero"])}))
+
+
+def apply_warmup(scr, warm):
+    """Run the warm-up create (library route) in this process; its outcome is not judged here."""
+    if not warm:
+        return False
+    base = os.path.join(scr, "warm")
+    os.makedirs(base, exist_ok=True)
+    tree = {"name": "w", "single": len(warm["sizes"]) == 1,
+            "files": [{"path": [] if len(warm["sizes"]) == 1 else ["w%d.bin" % i], "size": n, "mode": warm["mode"], "seed": 77 + i}
+                      for i, n in enumerate(warm["sizes"])]}
+    try:
+        root = sandbox.materialize(tree, base)
+        create(warm["creator"], "lib", root, os.path.join(base, "w.torrent"), warm["P"])
+    except Exception:  # noqa: BLE001 - not this case's subject
+        return False
+    return True
